@@ -76,6 +76,7 @@ def check(rep: Report, ctx: Ctx) -> None:
     r519(rep, ctx)
     r520(rep, ctx)
     r521(rep, ctx)
+    r523(rep, ctx)
 
 
 # --------------------------------------------------------------------------
@@ -1542,3 +1543,11 @@ def r522(rep: Report, ctx: Ctx) -> None:
                f"{f.name}: {unparse(s_)[:50]}" for f, s_ in bad[:4])
                if bad else f"{n} functions of puml_graph.py reachable, none "
                "writes to a parameter's attribute / item"))
+
+
+def r523(rep: Report, ctx: Ctx) -> None:
+    from .util import crossed_handoffs
+    rep.rule("R5.23", "positional hand-offs in the diagram builder do not "
+             "cross two parameters", 1)
+    crossed_handoffs(rep, ctx, "R5.23", ("puml_graph.py", "walk_puml_graph/"),
+                     100)
